@@ -10,7 +10,9 @@ META = {
                  "incl. the select race TickBeatsDone); every behaviour of the generator specs executed against the real "
                  "SignalHandler.Handle / RefreshWorker with faked notifier, services, clock, schedule, context constructor, "
                  "refresher and error handler; seeded random real runs trace-validated by TLC",
-    "level_text": "TLC checks for 0..4 services, every outcome vector over {nil, err, panic} and every signal script (0..2 ignored "
+    "level_text": "TLC checks for 0..4 services, every outcome vector over {nil, err, panic} (and over 12 outcome KINDS - "
+                  "context.DeadlineExceeded/Canceled, wrapped, joined, io.EOF, panic with string/error/nil - completely for "
+                  "<= 2 services, one non-plain kind at a time beyond) and every signal script (0..2 ignored "
                   "signals, one shutdown signal, 0..1 trailing signal at every point of the shutdown) that Shutdown is called at "
                   "most once per service, in reverse registration order, on every service, nothing before the first shutdown "
                   "signal, nothing after the return, status success iff all outcomes nil, and that Handle returns; for the "
@@ -18,7 +20,8 @@ META = {
                   "Refresh per tick, contexts from the constructor, every loop error handed over exactly once, the schedule "
                   "consulted after each refresh with the clock's current time and its answer slept, no loop refresh started "
                   "after done was closed other than the in-flight one or the named TickBeatsDone branch, Shutdown's result = "
-                  "the final refresh's error. Every generated behaviour is run against the real code and compared call by "
+                  "the final refresh's error; done is closed before the final refresh, so a tick offered while it is in flight "
+                  "can never be taken (the CloseLate variant of the model shows the extra refresh otherwise). Every generated behaviour is run against the real code and compared call by "
                   "call; random real runs (<= 12 services, <= 40 ticks, Shutdown while parked / right after Start / during a "
                   "refresh in flight) are validated back against the same actions.",
     "level_note": "TickBeatsDone (a tick already pending when Shutdown closes done may still be served) is modelled but never "
@@ -29,18 +32,26 @@ META = {
 
 SIG_INV = ["STypeOK", "AtMostOnce", "NothingBeforeShutdownSignal", "ReverseOrder", "AtReturn", "StatusOnlyAtReturn"]
 RW_INV = ["WTypeOK", "OneRefreshPerTick", "CtxFromConstructor", "ErrorsHandledOnce", "ScheduleConsulted",
-          "NoRefreshAfterShutdown", "ShutdownResult"]
+          "NoRefreshAfterShutdown", "DoneClosedFirst", "WindowNeverTicks", "ShutdownResult"]
+PLAIN = '{"nil", "err", "panic"}'
+# Outcome kinds: data the code might inspect; the requirement does not depend on them.
+KINDS = ('{"nil", "err", "deadline", "canceled", "wdeadline", "wcanceled", "join", "eof", '
+         '"panic", "panicerr", "panicdl", "panicnil"}')
+PANICS = '{"panic", "panicerr", "panicdl", "panicnil"}'
 
 
-def sig_consts(maxn, maxpre=2, maxtrail=1, panic_aborts=False):
-    return {"MaxServices": maxn, "Outcomes": '{"nil", "err", "panic"}', "OtherSigs": '{"HUP", "USR1"}',
+def sig_consts(maxn, maxpre=2, maxtrail=1, panic_aborts=False, kinds=False):
+    """kinds=True: the full alphabet of outcome kinds for up to 2 services, one
+    non-plain kind at a time (mixed with nil/err/panic) for more."""
+    return {"MaxServices": maxn, "Outcomes": KINDS if kinds else PLAIN, "PlainKinds": PLAIN,
+            "FullUpTo": 2 if kinds else 100, "PanicKinds": PANICS, "OtherSigs": '{"HUP", "USR1"}',
             "ShutSigs": '{"INT", "QUIT", "TERM"}', "MaxPre": maxpre, "TrailSigs": '{"HUP", "INT", "TERM"}',
             "MaxTrail": maxtrail, "PanicAborts": "TRUE" if panic_aborts else "FALSE"}
 
 
-def rw_consts(maxticks, tbd):
+def rw_consts(maxticks, tbd, close_late=False):
     return {"MaxTicks": maxticks, "ROSChoices": "{TRUE, FALSE}", "RefOutcomes": '{"nil", "err"}',
-            "AllowTBD": "TRUE" if tbd else "FALSE"}
+            "AllowTBD": "TRUE" if tbd else "FALSE", "CloseLate": "TRUE" if close_late else "FALSE"}
 
 
 def run(ctx):
@@ -55,7 +66,10 @@ def run(ctx):
                 "at least one service / one refresh")
     ctx.assumptions += [
         "signals reach the handler through the channel it registers with its SignalNotifier (capacity 1); a send waits for room",
-        "a service outcome is nil, an error or a panic; services return promptly",
+        "a service outcome is nil, an error (plain, context.DeadlineExceeded/Canceled, wrapped, joined, io.EOF) or a "
+        "panic (string, error value, DeadlineExceeded, nil); services return promptly",
+        "the final refresh is held inside Refresh for a window (50/100 ms) during which the pending timer's tick is "
+        "offered; also with a loop refresh in flight and right after Start",
         "TickBeatsDone is modelled, not provoked: whether a refresh for a tick already pending at Shutdown counts as "
         "'after Shutdown' is not settled by the statement",
         "Shutdown is called once; Start before Shutdown",
@@ -72,9 +86,23 @@ def run(ctx):
     if r.violated != "AtReturn":
         raise CheckerError("the PanicAborts variant of SignalHandler.tla should violate AtReturn, got %r" % r.violated)
     ctx.extra["design_level_reproduction_of_b5e2710"] = "AtReturn violated when a panic aborts the loop (as expected)"
+    # Outcome kinds (errors the code might inspect, panic values): same invariants, kinds as environment choice.
+    write_cfg(d / "SigMC_kinds.cfg", "SSpec", sig_consts(3 if q else 4, 0, 1, kinds=True), invariants=SIG_INV,
+              properties=["LaterSignalsChangeNothing", "EventuallyReturns"])
+    ctx.tlc(d, "SignalHandler", "SigMC_kinds.cfg", label="signal-mc-kinds", timeout=1200)
     write_cfg(d / "RWMC_run.cfg", "WSpec", rw_consts(4 if q else 6, True), invariants=RW_INV,
               properties=["StoppedIsFinal", "EventuallyStops"])
     ctx.tlc(d, "RefreshWorker", "RWMC_run.cfg", label="refresh-mc", timeout=1200)
+    # A Shutdown that closes done only on return (`defer close(w.done)`), shown on the design: a tick taken
+    # while the final refresh is in flight starts one more loop refresh.
+    write_cfg(d / "RWMC_closelate.cfg", "WSpec", rw_consts(2, True, close_late=True),
+              invariants=["NoRefreshAfterShutdown"])
+    r = ctx.tlc(d, "RefreshWorker", "RWMC_closelate.cfg", label="refresh-mc-close-late(expected to fail)",
+                expect_ok=False, count=False)
+    if r.violated != "NoRefreshAfterShutdown":
+        raise CheckerError("the CloseLate variant of RefreshWorker.tla should violate NoRefreshAfterShutdown, got %r"
+                           % r.violated)
+    ctx.extra["design_level_window_check"] = "NoRefreshAfterShutdown violated when done is closed after the final refresh (as expected)"
 
     # Development aid (mutation experiments): VERIF_STAGES=T runs only the
     # trace-validation binding, VERIF_STAGES=G only generate-and-replay.
@@ -92,9 +120,15 @@ def run_g(ctx, d, q):
     write_cfg(d / "SigGen_run.cfg", "SGSpec", sig_consts(3 if q else 4),
               invariants=["SEmit", "AtReturn", "ReverseOrder", "AtMostOnce"])
     ctx.tlc(d, "SignalHandlerGen", "SigGen_run.cfg", label="signal-gen", timeout=1200)
+    # ... and every outcome-kind vector (full alphabet for <= 2 services, one non-plain kind at a time beyond),
+    # with the plain signal scripts (one shutdown signal).
+    write_cfg(d / "SigGen_kinds.cfg", "SGSpec", sig_consts(3 if q else 4, 0, 0, kinds=True),
+              invariants=["SEmit", "AtReturn", "ReverseOrder", "AtMostOnce"])
+    ctx.tlc(d, "SignalHandlerGen", "SigGen_kinds.cfg", label="signal-gen-kinds", timeout=1200)
     write_cfg(d / "RWGen_run.cfg", "WGSpec", rw_consts(5 if q else 8, False),
               invariants=["WEmit", "OneRefreshPerTick", "ErrorsHandledOnce", "ScheduleConsulted",
-                          "SequentialNoRefreshAfterShutdown", "ShutdownResult"])
+                          "SequentialNoRefreshAfterShutdown", "DoneClosedFirst", "WindowNeverTicks",
+                          "ShutdownResult"])
     ctx.tlc(d, "RefreshWorkerGen", "RWGen_run.cfg", label="refresh-gen", timeout=1200)
     nsig = count_lines(d / "signal_vectors.ndjson")
     nrw = count_lines(d / "refresh_vectors.ndjson")
